@@ -77,3 +77,15 @@ claim('C01', 'exploration',
       'agreeing parses).  Lines <= 2048, one level of save frames, nesting bounded by the generator.',
       'runtime monitoring: generator-as-oracle differential parsing under ASan/UBSan',
       'DESIGN.md section 4, C01')
+
+claim('C08', 'exploration',
+      'Metamorphic: 3 (thorough 40) base documents rich in multi-line values, 3- and 4-byte characters and planted '
+      'defects are parsed with LF terminators and no padding; every transform - CR LF / CR / per-line mixtures, comment '
+      'padding of every byte length 0..4095 after the first line (every alignment against the 4096-byte read buffer, '
+      'for LF and CR LF), UTF-16 input at 128 alignments, tokens of 131 190 .. 300 000 units (text field, triple-quoted, '
+      'comment, unquoted, 100 000 CR LF pairs), leading CR / CR LF / BOM+CR, CR LF pairs straddling a fill boundary - must '
+      'yield the same dump and the same (error code, line) sequence, lines shifted by the padding.',
+      'Held on the enumerated alignments and seeded base documents.  The reference parse of the well-formed part is '
+      'itself tied to the generator\'s content.',
+      'runtime monitoring: metamorphic alignment / terminator sweep under ASan/UBSan',
+      'DESIGN.md section 4, C08')
